@@ -35,15 +35,34 @@ MANIFEST = {
             "the absence of races (schedules are sampled).",
 }
 
-TSAN_SRC = [
-    "src/celeritas/user/ActionDiagnostic.cc", "src/celeritas/user/StepDiagnostic.cc",
-    "src/celeritas/user/SimpleCalo.cc", "src/celeritas/user/StepCollector.cc",
-    "src/celeritas/user/detail/StepGatherAction.cc", "src/celeritas/user/detail/StepParams.cc",
-    "src/celeritas/user/detail/SimpleCaloImpl.cc", "src/celeritas/global/Stepper.cc",
-    "src/celeritas/global/CoreState.cc", "src/celeritas/global/ActionSequence.cc",
-    "src/corecel/data/AuxStateVec.cc", "src/corecel/io/Logger.cc",
-    "src/celeritas/track/TrackInitParams.cc", "src/celeritas/random/RngReseed.cc",
+# directories whose translation units (those the library build itself compiles here, read from
+# the build tree's build.ninja) are compiled INTO the TSan harness, plus a few single files
+TSAN_DIRS = ["celeritas.dir/user/", "celeritas.dir/global/", "corecel.dir/data/", "corecel.dir/sys/"]
+TSAN_EXTRA = [
+    "src/corecel/io/Logger.cc", "src/celeritas/track/TrackInitParams.cc",
+    "src/celeritas/random/RngReseed.cc", "src/celeritas/track/SortTracksAction.cc",
+    "src/celeritas/track/detail/TrackSortUtils.cc", "src/celeritas/track/StatusChecker.cc",
+    "src/celeritas/track/ExtendFromPrimariesAction.cc",
+    "src/celeritas/track/ExtendFromSecondariesAction.cc",
+    "src/celeritas/track/InitializeTracksAction.cc",
 ]
+
+
+def tsan_sources():
+    """every .cc of the stream-facing directories that the library build compiles in this
+    sandbox (so it builds stand-alone with the same headers)"""
+    try:
+        txt = open(os.path.join(vlib.CELER, "build.ninja")).read()
+    except OSError:
+        return list(TSAN_EXTRA)
+    objs = set(re.findall(r"src/([a-z]+)/CMakeFiles/([a-z_]+\.dir)/([A-Za-z0-9_/.]+\.cc)\.o", txt))
+    out = []
+    for top, d, rel in sorted(objs):
+        if any((d + "/" + rel).startswith(p) for p in TSAN_DIRS):
+            out.append("src/%s/%s" % (top, rel))
+    return out + [x for x in TSAN_EXTRA if x not in out]
+
+
 ENV = {"CELER_LOG_LOCAL": "error", "CELER_LOG": "error"}
 
 
@@ -66,32 +85,47 @@ def run_one(exe, line, env=None):
 
 def build_tsan():
     """harness + the stream-facing /repo sources with -fsanitize=thread, linked against the
-    (uninstrumented) libraries; incremental through ninja/depfiles"""
+    (uninstrumented) libraries; incremental through ninja/depfiles.  A source that does not
+    compile stand-alone is left out (and listed).  Returns (exe, log, used, skipped)."""
     ok, log, _ = vlib.build_repo_libs(LIBS)
     if not ok:
-        return None, log
+        return None, log, [], []
     inc, cxx, ld = vlib.harness_flags(LIBS)
     cxx = [f for f in cxx if f != "-O1"] + ["-O1", "-g", "-fsanitize=thread"]
     os.makedirs(vlib.HBUILD, exist_ok=True)
-    srcs = [os.path.join(vlib.HARNESS, "streams.cc")] + [os.path.join(vlib.REPO, s) for s in TSAN_SRC]
-    lines = ["rule cxx", "  command = g++ $flags -MMD -MF $out.d -c $in -o $out",
-             "  depfile = $out.d", "  deps = gcc",
-             "rule link", "  command = g++ $flags $in -o $out $ldflags"]
-    objs = []
+    rel = tsan_sources()
+    srcs = [os.path.join(vlib.HARNESS, "streams.cc")] + [os.path.join(vlib.REPO, s) for s in rel]
+    head = ["rule cxx", "  command = g++ $flags -MMD -MF $out.d -c $in -o $out",
+            "  depfile = $out.d", "  deps = gcc",
+            "rule link", "  command = g++ $flags $in -o $out $ldflags"]
+    objs = {}
+    comp = []
     for s in srcs:
-        o = os.path.join(vlib.HBUILD, "streams_tsan_" + os.path.basename(s) + ".o")
-        objs.append(o)
-        lines += [f"build {o}: cxx {s}", "  flags = " + " ".join(cxx + inc)]
+        tag = s.replace(vlib.REPO, "").replace(vlib.HARNESS, "h").strip("/").replace("/", "_")
+        o = os.path.join(vlib.HBUILD, "tsan_" + tag + ".o")
+        objs[s] = o
+        comp += [f"build {o}: cxx {s}", "  flags = " + " ".join(cxx + inc)]
     exe = os.path.join(vlib.HBUILD, "streams_tsan")
-    lines += [f"build {exe}: link " + " ".join(objs), "  flags = " + " ".join(cxx),
-              "  ldflags = " + " ".join(ld)]
-    nin = os.path.join(vlib.HBUILD, "streams_tsan.ninja")
-    text = "\n".join(lines) + "\n"
+    nin_c = os.path.join(vlib.HBUILD, "streams_tsan_objs.ninja")
+    nin_l = os.path.join(vlib.HBUILD, "streams_tsan_link.ninja")
     with vlib.Lock("harness_streams_tsan"):
-        if not os.path.exists(nin) or open(nin).read() != text:
-            open(nin, "w").write(text)
-        rc, out = vlib.sh(["ninja", "-f", nin, "-C", vlib.HBUILD], timeout=3600)
-    return (exe if rc == 0 else None), out[-4000:]
+        text = "\n".join(head + comp) + "\n"
+        if not os.path.exists(nin_c) or open(nin_c).read() != text:
+            open(nin_c, "w").write(text)
+        rc, out = vlib.sh(["ninja", "-k", "0", "-f", nin_c, "-C", vlib.HBUILD], timeout=7200)
+        good = [s for s in srcs if os.path.exists(objs[s]) and
+                os.path.getmtime(objs[s]) >= os.path.getmtime(s)]
+        skipped = [s for s in srcs if s not in good]
+        if srcs[0] not in good:
+            return None, out[-4000:], [], skipped
+        text = "\n".join(head + [f"build {exe}: link " + " ".join(objs[s] for s in good),
+                                  "  flags = " + " ".join(cxx), "  ldflags = " + " ".join(ld)]) + "\n"
+        if not os.path.exists(nin_l) or open(nin_l).read() != text:
+            open(nin_l, "w").write(text)
+        rc, out2 = vlib.sh(["ninja", "-f", nin_l, "-C", vlib.HBUILD], timeout=3600)
+    return (exe if rc == 0 else None), (out + out2)[-4000:], \
+        [g.replace(vlib.REPO + "/", "") for g in good[1:]], \
+        [g.replace(vlib.REPO + "/", "") for g in skipped]
 
 
 def tsan_reports(text):
